@@ -5,8 +5,12 @@ with the repairs of `fix: riscv-lower-parallel-mov …` (moves into `zero` are n
 out-edge counter is keyed by register, a fully processed root is *not* turned into a scratch
 register, the xor-swap chain follows the travelling value).
 
-Registers are `(kind, index)`; `index = none` is an unallocated register, `(int, some 0)` is the
-hard-wired `zero`.  Python iteration orders are explicit: every loop below runs over the operand
+Registers are `(kind, index)` = (register file, register number): the protocol tokens `i<k>` /
+`f<k>` are the *physical* registers (`i0` = `zero`/`x0`, `i10` = `a0`, `f0` = `ft0`, `f10` = `fa0`,
+`k ≥ 32` = the "infinite" register `j_<k-32>` / `fj_<k-32>`), whatever their spelling.
+`index = none` is an unallocated register, `(int, some 0)` is the hard-wired `zero` (the pass
+recognises it by register file and index, so also when it is spelled `x0`); `(flt, some 0)` = `ft0`
+is an ordinary register.  Python iteration orders are explicit: every loop below runs over the operand
 list in operand order, dictionaries are only ever looked up (`AL.get`), `free_registers[kind][0]`
 is the first designated free register of that kind.
 
